@@ -218,7 +218,7 @@ func (w *wkbModel) fill(target oval, order string) (bool, string) {
 
 func newWkbModel(c *Ctx) *wkbModel {
 	m := newClipModel(c)
-	m.it.maxDepth = 16
+	m.it.maxDepth = 48
 	w := &wkbModel{m: m, c: c, mpT: c.P.NamedType("geom", "MultiPoint"), gcT: c.P.NamedType("geom", "GeometryCollection")}
 	eof := oIface{opaque: &oOpaque{name: "unexpected EOF", isError: true}}
 	errV := oIface{opaque: &oOpaque{name: "error", isError: true}}
